@@ -372,6 +372,35 @@ where
     }
 }
 
+/// After a multi-step operation failed half way the builder may hold a
+/// PREFIX of the operation's effect (the steps that went in before the
+/// failing one) but nothing else: what was built before must be intact.
+/// `allowed` lists the states after 0, 1, 2, ... steps.
+fn resync_among<B: TB>(op: &str, b: &NameBuilder<B>, m: &mut Model, allowed: &[Model], t: &[String]) -> CaseResult
+where
+    B::Octets: AsRef<[u8]>,
+{
+    let (w, il) = observe(b);
+    if let Err(e) = Model::from_observed(&w, il) {
+        vfail!(format!("{op}:builder-invalid-after-error"), "after failed {op} the builder holds {} in_label={il}: {e}\nops: {}", hexs_raw(&w), render(t));
+    }
+    for a in allowed {
+        if a.wire() == w && a.open.is_some() == il && a.len() == b.len() {
+            *m = a.clone();
+            return Ok(());
+        }
+    }
+    vfail!(
+        format!("{op}:failed-op-corrupted-state"),
+        "after failed {op} the builder shows {} in_label={il}, which is none of the {} states the operation passes through (before: {} in_label={})\nops: {}",
+        hexs_raw(&w),
+        allowed.len(),
+        hexs_raw(&allowed[0].wire()),
+        allowed[0].open.is_some(),
+        render(t)
+    );
+}
+
 pub fn sym_octet(s: Symbol) -> Option<u8> {
     match s {
         Symbol::Char(c) => {
@@ -593,7 +622,15 @@ where
                         if fit == Fit::Fits && e != PushError::ShortBuf {
                             ctx.class(format!("{}:{op}:overstrict", cfg.tag));
                         }
-                        resync(op, &b, &mut m)?;
+                        let mut allowed = vec![before.clone()];
+                        let mut ended = before.clone();
+                        ended.end_label();
+                        for k in 0..=digits.len() {
+                            let mut a = ended.clone();
+                            a.apply_content(&digits[..k]);
+                            allowed.push(a);
+                        }
+                        resync_among(op, &b, &mut m, &allowed, &t)?;
                         failed_before = true;
                         t.push(format!("{op}={e:?}"));
                         Flow::Continue
@@ -607,7 +644,22 @@ where
                 n = n.min(254);
                 if n == 1 { n = 2 }
                 key.push(n as u64);
-                let w = rel_of_len(u, n);
+                let mut w = rel_of_len(u, n);
+                if chance(u, if cfg.cap.is_some() { 150 } else { 60 }) {
+                    // several short labels, so that a bounded buffer can run
+                    // out in the middle of the name
+                    w.clear();
+                    let cnt = 2 + pick(u, 5);
+                    let rem = cfg.cap.map(|c| c.saturating_sub(m.len())).unwrap_or(40);
+                    for i in 0..cnt {
+                        let l = if i == 0 && rem >= 3 && flag(u) { 1 + pick(u, (rem - 2).min(20)) } else { 1 + pick(u, 7) };
+                        if w.len() + 1 + l > 254 { break; }
+                        w.push(l as u8);
+                        w.extend_from_slice(&fill(u, l));
+                    }
+                    n = w.len();
+                    key.push(n as u64);
+                }
                 let rel = match RelativeName::from_octets(w.clone()) {
                     Ok(r) => r,
                     Err(e) => vfail!("relative-from_octets:rejected-valid-name", "RelativeName::from_octets refused valid {} octets: {e}", w.len()),
@@ -636,8 +688,24 @@ where
                     Err(PushNameError::ShortBuf) => {
                         vensure!(cfg.cap.is_some(), "append_name:shortbuf-on-growable-buffer", "ShortBuf");
                         ctx.class(format!("{}:append_name:shortbuf", cfg.tag));
-                        // whole labels may have been appended: usable, not unchanged
-                        resync("append_name", &b, &mut m)?;
+                        // whole labels may have been appended: the state is
+                        // the ended label plus the first k labels of the name
+                        let mut allowed = vec![before.clone()];
+                        let mut a = before.clone();
+                        a.end_label();
+                        allowed.push(a.clone());
+                        for st in label_starts(&w).into_iter().skip(1).chain(std::iter::once(w.len())) {
+                            let mut x = a.clone();
+                            x.done.extend_from_slice(&w[..st]);
+                            allowed.push(x);
+                        }
+                        resync_among("append_name", &b, &mut m, &allowed, &t)?;
+                        if m.len() > before.len() {
+                            ctx.class(format!("{}:append_name:shortbuf-midway", cfg.tag));
+                            if before.open.is_some() {
+                                ctx.class(format!("{}:append_name:shortbuf-midway-with-open-label", cfg.tag));
+                            }
+                        }
                         failed_before = true;
                         t.push(format!("append_name({n})=ShortBuf"));
                         Flow::Continue
@@ -706,6 +774,7 @@ where
                 let mut mm = m.clone();
                 let mut all_fit = true;
                 let mut bad_step: Option<(Model, Fit)> = None;
+                let mut passes_through: Vec<Model> = vec![m.clone()];
                 if let Ok(rn) = ref_parse_symbols(&txt) {
                     for s in rn {
                         match s {
@@ -719,6 +788,7 @@ where
                                 mm.apply_content(&[o]);
                             }
                         }
+                        passes_through.push(mm.clone());
                     }
                 } else {
                     all_fit = false;
@@ -746,7 +816,7 @@ where
                     Err(e) => {
                         ctx.class(format!("{}:{op}:err", cfg.tag));
                         if all_fit && cfg.cap.is_none() { ctx.class(format!("{}:{op}:overstrict", cfg.tag)); }
-                        resync(op, &b, &mut m)?;
+                        resync_among(op, &b, &mut m, &passes_through, &t)?;
                         failed_before = true;
                         t.push(format!("{op}({txt:?})={e:?}"));
                         Flow::Continue
